@@ -466,7 +466,17 @@ pub fn decorated_pairs(gs: &[G], wraps: &[&dyn Fn(G) -> G]) -> Vec<G> {
     let mut out = vec![];
     for g in gs {
         let n = g.size().min(20) as u32;
-        for mask in 1..(1u32 << n) {
+        // every non-empty subset for small grammars; for larger ones every single node, every
+        // adjacent (parent, first child) pair of pre-order neighbours, and the full set
+        let masks: Vec<u32> = if n <= 4 {
+            (1..(1u32 << n)).collect()
+        } else {
+            let mut m: Vec<u32> = (0..n).map(|i| 1 << i).collect();
+            m.extend((0..n - 1).map(|i| 3 << i));
+            m.push((1u32 << n) - 1);
+            m
+        };
+        for mask in masks {
             for w in wraps {
                 out.push(g.clone());
                 out.push(decorate(g, mask, *w));
